@@ -542,7 +542,7 @@ def job_prange(job):
         try:
             build_model()
             i = 0
-            while not sw.expired():
+            while not sw.expired() and i < job.get("max_runs", 10**9):
                 key = f"{seed}/C/{i}"
                 i += 1
                 case = gen_C(key)
@@ -554,6 +554,8 @@ def job_prange(job):
                 if rr.harness:
                     agg.d["harness"].append(f"{key}: {rr.harness}")
                     continue
+                if job.get("dump"):
+                    agg.d["digest_map"][key] = rr.digest
                 for k, v in rr.probes.items():
                     agg.bump("probes", k, v)
                 if rr.counters.get("line_yields"):
